@@ -1534,6 +1534,26 @@ def judgeC15 (ops : List OpRec) : List String :=
   -- broker answered to *that* call's request — C10's demands on every offset look-up of the history
   s.out ++ (judgeC10 ops).map fun (l : String) => l.replace "C10-" "C15-foreign-reply-"
 
+/-! ### C18 -/
+
+/-- what a live result shows: (a) at first read, what the broker sent (C02's demands on the kept fetch), and
+    (b) at every later read — after moves, drops of other results, further calls and allocation churn — the same bytes -/
+def judgeC18 (ops : List OpRec) : List String :=
+  let asFetch : List OpRec := ops.map fun (op : OpRec) => match op.toks with
+    | tgt :: "fetch_keep" :: rest => { op with toks := tgt :: "fetch_messages" :: rest }
+    | _ => op
+  let first := (judgeC02 asFetch).map fun (l : String) => l.replace "C02-" "C18-first-read-"
+  let s := ops.foldl (fun (s : JSt) (op : OpRec) =>
+    match op.toks with
+    | ["keep_check"] =>
+      if op.result == "ok" then s
+      else if op.result.startsWith "corrupt" then viol s "C18-bytes-changed" op op.result
+      else viol s "C18-reread-failed" op op.result
+    | "keep_move" :: _ => if op.result == "ok" then s else viol s "C18-move-failed" op op.result
+    | "keep_drop" :: _ => if op.result == "ok" || op.result == "none" then s else viol s "C18-drop-failed" op op.result
+    | _ => s) ({} : JSt)
+  first ++ s.out
+
 def judge (prop : String) (lines : List String) : List String :=
   let ops := parseOps lines
   match prop with
@@ -1555,6 +1575,7 @@ def judge (prop : String) (lines : List String) : List String :=
   | "C08" => judgeC08 ops
   | "C17" => judgeC17 ops
   | "C15" => judgeC15 ops
+  | "C18" => judgeC18 ops
   | _ => []
 
 end Kafka.Judge
